@@ -2,9 +2,7 @@
 pub fn to_f32(&self) -> Rounded<f32>
 /*@
     requires
-        // operand in normal form (Repr invariant), resource limits (digit count and exponent below 2^54), and for a finite
-        // operand with B != 2 -- KNOWN FINDING -- the region where the assumed contract of convert_base holds (B a power
-        // of two, or |exponent| <= 38: lib/fp_spec.rs fp_cb_region)
+        // operand in normal form (Repr invariant), resource limits (lib/fp_spec.rs fp_src_ok); any base, finite or infinite
         fp_to_f_pre::<B>(self.repr),
     ensures
         // C06 with the documented rounding rule of this function = the rounding mode associated with the type (R):
@@ -25,18 +23,20 @@ pub fn to_f32(&self) -> Rounded<f32>
 
         let context = Context::<R>::new(24);
         if B != 2 {
-            let rounded = context.convert_to_binary_once(self.repr.clone());
             /*@ proof {
-                // the precondition of into_f32_internal ("already rounded to 24 binary bits") is ESTABLISHED
-                lemma_fp_once_digits(R::md(), 24, N, D, mid_of(rounded));
-                assert forall|o: Rounded<f32>| #[trigger] fp_into32_post(rd_val0(rounded), o)
-                    implies fp_two_stage32(R::md(), N, D, mid_of(rounded), and_then_spec(rounded, o)) by {
-                    lemma_fp_compose32(R::md(), N, D, rounded, o);
+                // (contract of convert_to_binary_once: finite, at most 24 bits) the precondition of into_f32_internal
+                // ("already rounded to 24 binary bits") is ESTABLISHED, and the two contracts compose
+                assert forall|rr: Rounded<Repr<2>>, o: Rounded<f32>| #[trigger] fp_into32_post(rd_val0(rr), o)
+                        && fp_once_post::<B>(R::md(), 24usize, self.repr, rr)
+                    implies fp_two_stage32(R::md(), N, D, mid_of(rr), and_then_spec(rr, o)) by {
+                    lemma_fp_compose32(R::md(), N, D, rr, o);
                 }
             } @*/
+            let rounded = context.convert_to_binary_once(self.repr.clone());
             rounded.and_then(|v| /*@ -> (o: Rounded<f32>) requires fp_into_pre(v, 24) ensures fp_into32_post(v, o) @*/ v.into_f32_internal())
         } else {
             /*@ proof {
+                lemma_fp_blen_nd(sig);       // B == 2: the resource bound of fp_src_ok is the digit bound repr_round_ref asks for
                 assert forall|rr: Rounded<Repr<B>>| #[trigger] round_once(R::md(), B as int, 24usize, sig, e, rr) && fp_inexact_normal(B as int, rr)
                     implies fp_into_pre(rd_val0(rr), 24) by {
                     lemma_fp_mid_of_round(R::md(), 24, sig, e, rr);
